@@ -375,7 +375,7 @@ def plan(tier, seed):
                 combos.append((g, parser, lexer, by, cost))
     Ks = {'lines': 8, 'nlvia': 8, 'dotall': 7, 'meta1': 7}
     for g, parser, lexer, by, cost in combos:
-        Lq = 3 if quick else (5 if parser == 'lalr' else 4)
+        Lq = 3 if quick else 4
         k = Ks[g]
         npaths = sum(k ** n for n in range(Lq + 1))
         budget = 45 if quick else 900
